@@ -45,6 +45,10 @@ FLATTEN = {
 }
 
 
+class CustomSkip(Exception):
+    """A skipException that does not derive from unittest.SkipTest."""
+
+
 class VerifError(ValueError):
     """The 'error' kind."""
 
@@ -288,6 +292,14 @@ def make_class(config):
         Prog.test_it = testtools.skipIf(False, "dec!skip")(Prog.test_it)
     elif dec == "skip_class":
         Prog = unittest.skip("dec!skip")(Prog)
+    elif dec == "skip_empty_reason":
+        Prog.test_it = testtools.skip("")(Prog.test_it)
+    elif dec == "skipIf_empty_reason":
+        Prog.test_it = testtools.skipIf(True, "")(Prog.test_it)
+    elif dec == "unittest_skip_bare":
+        Prog.test_it = unittest.skip(Prog.test_it)  # used without arguments: the reason is ''
+    elif dec == "custom_skipexception":
+        Prog.skipException = CustomSkip  # a project-specific skip class, unrelated to unittest.SkipTest
     elif dec == "xfail_decorator":
         Prog.test_it = unittest.expectedFailure(Prog.test_it)
     elif dec is not None:
@@ -330,6 +342,9 @@ class ModelRun:
         self.missing = []  # stages the model runs but that have no decision
         self.stack = []
         self.skipped_by_decorator = config.decorator in (
+            "skip_empty_reason",
+            "skipIf_empty_reason",
+            "unittest_skip_bare",
             "skip_method",
             "skipIf_method",
             "skipUnless_method",
